@@ -74,7 +74,11 @@ func TestGovcBoundedExtractPathParams(t *testing.T) {
 		}
 	}
 	rec(nil, 8)
-	for _, s := range []string{"/users/{user_id}/posts/{post_id}", "{user_id}", "{org_id}/members/{member_id}", "/v{n}/users", "/a/{x}{y}/b", "/t/{tenant}/x/{id}", "/x/{id}/y/{id}", "/{a b}/{c-d}", "users/{id}/", "/{}/{a}", "/{{a}}", "/ü/{ñ}"} {
+	// second alphabet: the punctuation that has a meaning in net/http patterns and in other routers' templates
+	// ("{name...}", "{$}", "{a.b}", "{a-b}", "{ a }"): a variable is whatever stands between the braces, verbatim
+	alphabet = []byte{'{', '}', 'a', '.', '$', '-', '_', ' '}
+	rec(nil, 6)
+	for _, s := range []string{"/users/{user_id}/posts/{post_id}", "{user_id}", "{org_id}/members/{member_id}", "/v{n}/users", "/a/{x}{y}/b", "/t/{tenant}/x/{id}", "/x/{id}/y/{id}", "/{a b}/{c-d}", "users/{id}/", "/{}/{a}", "/{{a}}", "/ü/{ñ}", "/files/{path...}", "/items/{$}", "/users/{user.id}", "/users/{ id }", "/v1/{name=projects/*}", "/u/{id:[0-9]+}", "/a/{x}/{$}"} {
 		check(s)
 	}
 	fmt.Printf("BOUNDEDDONE strings=%d mismatches=%d\n", n, bad)
@@ -95,7 +99,7 @@ func runBoundedExtract() (strs int, fails []string, err error) {
 	ov, _ := json.Marshal(map[string]any{"Replace": map[string]string{filepath.Join(t.Repo, "internal", "annotations", "zz_govc_bounded_test.go"): testFile}})
 	ovFile := filepath.Join(dir, "overlay.json")
 	os.WriteFile(ovFile, ov, 0o644)
-	out, rerr := runCmd(t.Repo, nil, "go", "test", "-overlay", ovFile, "-v", "-vet=off", "-count=1", "-timeout", "120s", "-run", "TestGovcBoundedExtractPathParams", "./internal/annotations/")
+	out, rerr := runCmd(t.Repo, nil, "go", "test", "-overlay", ovFile, "-v", "-vet=off", "-count=1", "-timeout", "60s", "-run", "TestGovcBoundedExtractPathParams", "./internal/annotations/")
 	text := string(out)
 	m := regexp.MustCompile(`BOUNDEDDONE strings=(\d+) mismatches=(\d+)`).FindStringSubmatch(text)
 	if m == nil {
@@ -116,7 +120,7 @@ func runBoundedExtract() (strs int, fails []string, err error) {
 func init() {
 	boundedChecks["extractpathparams"] = func(w *World, seed int64) map[string]any {
 		n, fails, err := runBoundedExtract()
-		out := map[string]any{"name": "extractpathparams", "bounded": true, "bound": "every string over {'/','{','}','a','b'} up to length 8 (488281 strings) plus 12 longer templates, real function vs independent scanner", "strings": n}
+		out := map[string]any{"name": "extractpathparams", "bounded": true, "bound": "every string over {'/','{','}','a','b'} up to length 8 (488281 strings), every string over {'{','}','a','.','$','-','_',' '} up to length 6 (299593 strings) and 19 longer templates; real function vs independent scanner (a variable is the verbatim text between the braces); 60 s limit for the whole run (a hang is reported)", "strings": n}
 		if err != nil {
 			out["status"] = "error: " + err.Error()
 			return out
